@@ -29,11 +29,16 @@ pub fn guard<T>(f: impl FnOnce() -> T) -> Result<T, String> {
 /// Silence the panic hook (messages are kept in the payload) and send the library's own
 /// stdout/stderr chatter to /dev/null. Returns a writer onto the real stdout.
 /// file descriptor of the real standard output after `isolate_io` (for the watchdog)
+/// the most recent panic of any thread, with its source location (`panicked at <file>:<line>`)
+pub static LAST_PANIC_GLOBAL: std::sync::Mutex<String> = std::sync::Mutex::new(String::new());
 pub static REAL_STDOUT: std::sync::atomic::AtomicI32 = std::sync::atomic::AtomicI32::new(1);
 
 pub fn isolate_io() -> Box<dyn Write + Send> {
     std::panic::set_hook(Box::new(|info| {
         let s = info.to_string();
+        if let Ok(mut g) = LAST_PANIC_GLOBAL.lock() {
+            *g = s.clone();
+        }
         LAST_PANIC.with(|l| *l.borrow_mut() = s);
     }));
     unsafe {
